@@ -962,7 +962,7 @@ Proof.
   destruct k; try solve [intros H; inversion H; subst; auto].
   destruct cs as [|cx [|callee [|[[| | | | | |] args] [|targs [|? ?]]]]]; try solve [intros H; inversion H; subst; auto].
   destruct optional; [|intros H; inversion H; subst; auto].
-  destruct (member_parts callee) as [[obj prop]|].
+  destruct (oc_callee_member callee) as [[[obj prop] mopt]|].
   - destruct (oc_get_ident c obj s) as [[oid|] s1] eqn:E1.
     + destruct (oc_get_ident c _ s1) as [[mid|] s2] eqn:E2; intros H; inversion H; subst; intros T;
         cbn [oc_set_new_ident oc_p]; (eapply oc_get_ident_temp; [exact E2 | eapply oc_get_ident_temp; [exact E1 | exact T]]).
